@@ -1,13 +1,14 @@
 #!/usr/bin/env python3
 """Refresh tools/properties_meta.json (theorem list per property) from lean/PGT/Props/*.lean."""
-import re, json
-meta = json.load(open('/verif/tools/properties_meta.json'))
+import re, json, os
+V = os.path.dirname(os.path.dirname(os.path.abspath(__file__)))
+meta = json.load(open(f'{V}/tools/properties_meta.json'))
 for i in range(1, 21):
     k = f'C{i:02d}'
-    src = open(f'/verif/lean/PGT/Props/{k}.lean').read()
+    src = open(f'{V}/lean/PGT/Props/{k}.lean').read()
     code = re.sub(r'/-.*?-/', '', src, flags=re.S)
     code = re.sub(r'--.*', '', code)
     meta.setdefault(k, {})['theorems'] = re.findall(r'^\s*theorem\s+([A-Za-z0-9_.\']+)', code, flags=re.M)
     meta[k].setdefault('tables', [])
     print(k, len(meta[k]['theorems']))
-json.dump(meta, open('/verif/tools/properties_meta.json', 'w'), indent=1)
+json.dump(meta, open(f'{V}/tools/properties_meta.json', 'w'), indent=1)
